@@ -95,6 +95,20 @@ CHECKS.update({
                 design='DESIGN.md section 9 (C18)', technique='TLA+ struct layout spec + TLC theorems and enumeration + replay + TLC trace validation'),
 })
 
+CHECKS.update({
+    'C17': dict(text=("Model-based: Serial.tla defines tobytes/tofile (zero padding to a byte), the chunked writer and byte-source "
+                      "windows; TLC model-checks padding, window recovery and 'chunked = whole iff chunk is whole bytes' for every "
+                      "content up to 8-13 bits; all four classes x every length 0..20 and seeded random windows over six source "
+                      "kinds (incl. real files and handles) and the real tofile loop across a hooked chunk boundary are validated "
+                      "event by event; thorough writes one real > 100 MiB object."),
+                design='DESIGN.md section 9 (C17)', technique='TLA+ serialisation spec + TLC model checking + TLC trace validation of recorded file/bytes operations'),
+    'C08': dict(text=("Model-based: the reference state machine has no construction-route component, so conformance of the same "
+                      "calls on twins built by 17 routes (text, bytes windows, bitarray, slices, uint, fromstring, whole files, "
+                      "length-limited and offset file windows, file handles) to the one Step function decides route "
+                      "independence; seeded random programs under msb0 and lsb0, each event judged by TLC."),
+                design='DESIGN.md section 9 (C08)', technique='TLA+ route-free reference machine + TLC trace validation of twin objects built by every route'),
+})
+
 NOT_YET = {
 }
 
